@@ -160,7 +160,7 @@ package saml
 //@ requires[cfg] md: sp.IDPMetadata != nil
 //@ assert@call[C01,C18] DecodeString #each (enc *base64.Encoding, s string) whitespace_insensitive: WithoutWhitespace(s) == s
 //@ -- only certificates of key descriptors with use "signing" or without use become trust roots
-//@ assert@call[C01,C18] append #1 (dst []string, src []string) uses keyDescriptor KeyDescriptor signing_use_only:
+//@ assert@call[C01,C18] append #each (dst []string, src []string) uses keyDescriptor KeyDescriptor signing_use_only:
 //@    keyDescriptor.Use == "" || keyDescriptor.Use == "signing"
 //@ ensures[C01,C09] nonempty: err == nil ==> len(result) > 0
 //@ -- every trust root handed to the signature library is a parsed certificate (a nil root is dereferenced there)
@@ -179,7 +179,7 @@ package saml
 //@ ensures[C01,C18] single: err == nil ==> len(result) == 1
 //@ -- the one certificate returned is the certificate parsed from the signature's KeyInfo, and its fingerprint under the
 //@ -- configured algorithm equals the configured fingerprint
-//@ assert@call[C01,C18] fingerprint #1 (c *x509.Certificate, alg string) uses cert *x509.Certificate fingerprint_of_that_certificate:
+//@ assert@call[C01,C18] fingerprint #each (c *x509.Certificate, alg string) uses cert *x509.Certificate fingerprint_of_that_certificate:
 //@    c == cert && c != nil && alg == *sp.IDPCertificateFingerprintAlgorithm
 //@ assert@return[C01,C18] #last (out []*x509.Certificate, e error) uses cert *x509.Certificate, finP string, x509CertEl *etree.Element pinned_certificate_only:
 //@    e == nil && len(out) == 1 && out[0] == cert && *sp.IDPCertificateFingerprint == finP &&
@@ -191,8 +191,8 @@ package saml
 //@ requires c: cert != nil
 //@ ensures[C01,C18] known_algorithms_only: err == nil ==>
 //@    fingerprintAlgorithm == "http://www.w3.org/2001/04/xmlenc#sha256" || fingerprintAlgorithm == "http://www.w3.org/2001/04/xmlenc#sha512"
-//@ assert@call[C01,C18] Sum256 #1 (data []byte) digest_of_raw_certificate: sameBytes(data, cert.Raw) && fingerprintAlgorithm == "http://www.w3.org/2001/04/xmlenc#sha256"
-//@ assert@call[C01,C18] Sum512 #1 (data []byte) digest_of_raw_certificate_512: sameBytes(data, cert.Raw) && fingerprintAlgorithm == "http://www.w3.org/2001/04/xmlenc#sha512"
+//@ assert@call[C01,C18] Sum256 #each (data []byte) digest_of_raw_certificate: sameBytes(data, cert.Raw) && fingerprintAlgorithm == "http://www.w3.org/2001/04/xmlenc#sha256"
+//@ assert@call[C01,C18] Sum512 #each (data []byte) digest_of_raw_certificate_512: sameBytes(data, cert.Raw) && fingerprintAlgorithm == "http://www.w3.org/2001/04/xmlenc#sha512"
 
 //@ contract (*ServiceProvider).validateSignature
 //@ requires el: el != nil
@@ -237,7 +237,7 @@ package saml
 //@ requires el: encryptedEl != nil
 //@ requires[cfg] key: spKeyOK(sp.Key)
 //@ -- decrypted plaintext is parsed only after the round-trip validator accepted exactly those bytes
-//@ assert@call[C01,C08] ReadFromBytes #1 (doc *etree.Document, b []byte) plaintext_validated: RoundTripSafe(b)
+//@ assert@call[C01,C08] ReadFromBytes #each (doc *etree.Document, b []byte) plaintext_validated: RoundTripSafe(b)
 //@ ensures[C09] nonnil: err == nil ==> result != nil
 
 //@ contract (*ServiceProvider).parseEncryptedAssertion
@@ -263,14 +263,14 @@ package saml
 //@    Accepted(sp, *result, signatureRequired) ||
 //@    (Accepted(sp, *result, signatureNotRequired) && (signatureRequirement == signatureNotRequired || SigOK(sp, responseEl)))
 //@ -- response-level conditions hold at the point where assertions start to be collected
-//@ assert@call[C02,C03,C04] findChildren #1 uses response Response, responseHasSignature bool response_checked:
+//@ assert@call[C02,C03,C04] findChildren #each uses response Response, responseHasSignature bool response_checked:
 //@    responseOK(sp, response, possibleRequestIDs, now, responseHasSignature, currentURL)
-//@ assert@call[C03] findChildren #1 uses responseHasSignature bool, responseSignatureErr error signed_means_destination:
+//@ assert@call[C03] findChildren #each uses responseHasSignature bool, responseSignatureErr error signed_means_destination:
 //@    signatureRequirement == signatureRequired ==> responseHasSignature == (responseSignatureErr != errSignatureElementNotPresent)
 //@ -- the elements handed to the assertion parsers are children of this Response element, with the assertion namespace
-//@ assert@call[C01] parseEncryptedAssertion #1 (spa *ServiceProvider, el *etree.Element) encrypted_assertion_is_child:
+//@ assert@call[C01] parseEncryptedAssertion #each (spa *ServiceProvider, el *etree.Element) encrypted_assertion_is_child:
 //@    el != nil && ChildOf(el, responseEl) && el.Tag == "EncryptedAssertion" && NSOf(el) == "urn:oasis:names:tc:SAML:2.0:assertion"
-//@ assert@call[C01] parseAssertion #1 (spa *ServiceProvider, el *etree.Element) assertion_is_child:
+//@ assert@call[C01] parseAssertion #each (spa *ServiceProvider, el *etree.Element) assertion_is_child:
 //@    el != nil && ChildOf(el, responseEl) && el.Tag == "Assertion" && NSOf(el) == "urn:oasis:names:tc:SAML:2.0:assertion"
 //@ loop 1 vars assertions []Assertion, req=signatureRequirement signatureRequirement, errs []error
 //@ invariant[C09] enc_errs: forall(0, len(errs), func(k int) bool { return errs[k] != nil })
@@ -309,14 +309,14 @@ package saml
 //@ ensures[C03] audience: result != nil && sp.ValidateAudienceRestriction == nil ==> audienceOK(sp, result)
 //@ ensures[C01] covered: result != nil && sp.SignatureVerifier == nil ==> Covered(sp, *result)
 //@ -- the ArtifactResponse answers exactly the given ArtifactResolve ID, is fresh, from the IdP and successful
-//@ assert@call[C02,C03,C04] validateSignature #1 uses artifactResponse ArtifactResponse artifact_checked:
+//@ assert@call[C02,C03,C04] validateSignature #each uses artifactResponse ArtifactResponse artifact_checked:
 //@    artifactOK(sp, artifactResponse, artifactRequestID, now)
 //@ -- signatures become optional for the inner Response only if the ArtifactResponse signature verified
-//@ assert@call[C01] parseResponse #1 (spa *ServiceProvider, el *etree.Element, ids []string, nowArg time.Time, req signatureRequirement) inner_requirement:
+//@ assert@call[C01] parseResponse #each (spa *ServiceProvider, el *etree.Element, ids []string, nowArg time.Time, req signatureRequirement) inner_requirement:
 //@    (req == signatureRequired || (req == signatureNotRequired && (sp.SignatureVerifier != nil || SigOK(sp, artifactResponseEl)))) &&
 //@    nowArg == now && sameStrings(ids, possibleRequestIDs)
 //@ -- ... and that inner Response is a Response child, in the protocol namespace, of the very element whose signature was checked
-//@ assert@call[C01] parseResponse #1 (spa *ServiceProvider, el *etree.Element) inner_response_is_child:
+//@ assert@call[C01] parseResponse #each (spa *ServiceProvider, el *etree.Element) inner_response_is_child:
 //@    el != nil && ChildOf(el, artifactResponseEl) && el.Tag == "Response" && NSOf(el) == "urn:oasis:names:tc:SAML:2.0:protocol"
 
 //@ contract (*ServiceProvider).ParseXMLResponse
@@ -327,8 +327,8 @@ package saml
 //@ ensures[C02,C03,C04] valid: result != nil ==> assertionValid(sp, result, possibleRequestIDs, TimeNow())
 //@ ensures[C03] audience: result != nil && sp.ValidateAudienceRestriction == nil ==> audienceOK(sp, result)
 //@ ensures[C01] covered: result != nil && sp.SignatureVerifier == nil ==> Covered(sp, *result)
-//@ assert@call[C01] ReadFromBytes #1 (doc *etree.Document, b []byte) validated_bytes_parsed: RoundTripSafe(b) && sameBytes(b, decodedResponseXML)
-//@ assert@call[C01,C02,C03,C04] parseResponse #1 (spa *ServiceProvider, el *etree.Element, ids []string, nowArg time.Time, req signatureRequirement, cur url.URL) uses doc *etree.Document entry_arguments:
+//@ assert@call[C01] ReadFromBytes #each (doc *etree.Document, b []byte) validated_bytes_parsed: RoundTripSafe(b) && sameBytes(b, decodedResponseXML)
+//@ assert@call[C01,C02,C03,C04] parseResponse #each (spa *ServiceProvider, el *etree.Element, ids []string, nowArg time.Time, req signatureRequirement, cur url.URL) uses doc *etree.Document entry_arguments:
 //@    req == signatureRequired && el != nil && el == doc.Root() && sameBytes(ParsedFrom(doc), decodedResponseXML) &&
 //@    nowArg == TimeNow() && sameStrings(ids, possibleRequestIDs) && cur == currentURL
 
@@ -339,8 +339,8 @@ package saml
 //@ ensures[C02,C03,C04] valid: result != nil ==> assertionValid(sp, result, possibleRequestIDs, TimeNow())
 //@ ensures[C03] audience: result != nil && sp.ValidateAudienceRestriction == nil ==> audienceOK(sp, result)
 //@ ensures[C01] covered: result != nil && sp.SignatureVerifier == nil ==> Covered(sp, *result)
-//@ assert@call[C01] ReadFromBytes #1 (doc *etree.Document, b []byte) validated_bytes_parsed: RoundTripSafe(b) && sameBytes(b, soapResponseXML)
-//@ assert@call[C01,C04] parseArtifactResponse #1 (spa *ServiceProvider, el *etree.Element, ids []string, id string, nowArg time.Time, cur url.URL) entry_arguments:
+//@ assert@call[C01] ReadFromBytes #each (doc *etree.Document, b []byte) validated_bytes_parsed: RoundTripSafe(b) && sameBytes(b, soapResponseXML)
+//@ assert@call[C01,C04] parseArtifactResponse #each (spa *ServiceProvider, el *etree.Element, ids []string, id string, nowArg time.Time, cur url.URL) entry_arguments:
 //@    el != nil && id == artifactRequestID && nowArg == TimeNow() && sameStrings(ids, possibleRequestIDs) && cur == currentURL
 
 //@ contract (*ServiceProvider).parseResponseHTTP
@@ -358,7 +358,7 @@ package saml
 //@ ensures[C02,C03,C04] valid: result != nil ==> assertionValid(sp, result, possibleRequestIDs, TimeNow())
 //@ ensures[C01] covered: result != nil && sp.SignatureVerifier == nil ==> Covered(sp, *result)
 //@ -- the artifact response is bound to the ArtifactResolve request this call just built
-//@ assert@call[C04] ParseXMLArtifactResponse #1 (spa *ServiceProvider, body []byte, ids []string, id string) uses artifactResolveRequest *ArtifactResolve bound_to_request:
+//@ assert@call[C04] ParseXMLArtifactResponse #each (spa *ServiceProvider, body []byte, ids []string, id string) uses artifactResolveRequest *ArtifactResolve bound_to_request:
 //@    artifactResolveRequest != nil && id == artifactResolveRequest.ID && sameStrings(ids, possibleRequestIDs)
 
 //@ contract (*ServiceProvider).ParseResponse
@@ -377,7 +377,7 @@ package saml
 //@ -- (two requests would then share, and overwrite, each other's identifiers)
 //@ assert@return[C12,C06] #each (out []byte) own_memory: allocatedHereBytes(out)
 //@ ensures[C12] length: len(result) == n
-//@ assert@call[C12] io.ReadFull #1 (r io.Reader, buf []byte) uses rv []byte fills_all_from_configured_source:
+//@ assert@call[C12] io.ReadFull #each (r io.Reader, buf []byte) uses rv []byte fills_all_from_configured_source:
 //@    r == RandReader && sameBytes(buf, rv) && len(buf) == n
 
 //@ contract elementToBytes
@@ -406,25 +406,25 @@ package saml
 //@ contract (*ServiceProvider).ValidateLogoutResponseForm
 //@ requires[cfg] md: sp.IDPMetadata != nil
 //@ -- the bytes parsed are the validated ones; the signature is checked on the root; the root is what is unmarshalled
-//@ assert@call[C18] ReadFromBytes #1 (doc *etree.Document, b []byte) validated_bytes_parsed: RoundTripSafe(b)
-//@ assert@call[C18] validateSignature #1 (spa *ServiceProvider, el *etree.Element) uses doc *etree.Document signature_on_root:
+//@ assert@call[C18] ReadFromBytes #each (doc *etree.Document, b []byte) validated_bytes_parsed: RoundTripSafe(b)
+//@ assert@call[C18] validateSignature #each (spa *ServiceProvider, el *etree.Element) uses doc *etree.Document signature_on_root:
 //@    el != nil && el == doc.Root()
-//@ assert@call[C18] unmarshalElement #1 (el *etree.Element, v interface{}) uses doc *etree.Document unmarshals_verified_root:
+//@ assert@call[C18] unmarshalElement #each (el *etree.Element, v interface{}) uses doc *etree.Document unmarshals_verified_root:
 //@    el == doc.Root() && (sp.SignatureVerifier != nil || SigOK(sp, el))
-//@ assert@call[C18] validateLogoutResponse #1 (spa *ServiceProvider, r *LogoutResponse) uses doc *etree.Document checks_that_response:
+//@ assert@call[C18] validateLogoutResponse #each (spa *ServiceProvider, r *LogoutResponse) uses doc *etree.Document checks_that_response:
 //@    r != nil && LogoutResponseReadFrom(doc.Root(), *r)
 
 //@ contract (*ServiceProvider).ValidateLogoutResponseRedirect
 //@ requires[cfg] md: sp.IDPMetadata != nil
-//@ assert@call[C18] ReadFromBytes #1 (doc *etree.Document, b []byte) validated_bytes_parsed: RoundTripSafe(b)
-//@ assert@call[C18] validateSignature #1 (spa *ServiceProvider, el *etree.Element) uses doc *etree.Document signature_on_root:
+//@ assert@call[C18] ReadFromBytes #each (doc *etree.Document, b []byte) validated_bytes_parsed: RoundTripSafe(b)
+//@ assert@call[C18] validateSignature #each (spa *ServiceProvider, el *etree.Element) uses doc *etree.Document signature_on_root:
 //@    el != nil && el == doc.Root()
-//@ assert@call[C18] unmarshalElement #1 (el *etree.Element, v interface{}) uses doc *etree.Document unmarshals_verified_root:
+//@ assert@call[C18] unmarshalElement #each (el *etree.Element, v interface{}) uses doc *etree.Document unmarshals_verified_root:
 //@    el == doc.Root() && (sp.SignatureVerifier != nil || SigOK(sp, el))
-//@ assert@call[C18] validateLogoutResponse #1 (spa *ServiceProvider, r *LogoutResponse) uses doc *etree.Document checks_that_response:
+//@ assert@call[C18] validateLogoutResponse #each (spa *ServiceProvider, r *LogoutResponse) uses doc *etree.Document checks_that_response:
 //@    r != nil && LogoutResponseReadFrom(doc.Root(), *r)
 //@ -- the redirect form inflates through the bounded reader
-//@ assert@call[C18,C09] ReadAll #1 (r io.Reader) bounded_inflate: isSaferFlateReader(r)
+//@ assert@call[C18,C09] ReadAll #each (r io.Reader) bounded_inflate: isSaferFlateReader(r)
 //@ go func isSaferFlateReader(r io.Reader) bool { _, ok := r.(*saferFlateReader); return ok }
 
 //@ contract (*ServiceProvider).ValidateLogoutResponseRequest
@@ -518,6 +518,16 @@ package saml
 //@    RegistryHas(req.IDP.ServiceProviderProvider, req.Request.Issuer.Value, req.ServiceProviderMetadata)
 //@ ensures[C05] registered: err == nil ==> registeredACS(req)
 //@ ensures[C05,C06,C09] descriptor: err == nil ==> req.SPSSODescriptor != nil && req.ACSEndpoint != nil
+//@ -- the other direction (C12: this IdP takes every request this library's SP makes, on every binding): a request is
+//@ -- refused only for a stated reason - a callee reported an error (XML validation, decoding, the registry, endpoint
+//@ -- selection), the IdP itself wants signed requests, a destination is given and wrong, the request is stale, is not
+//@ -- version 2.0, or names no issuer. A new refusal needs a new reason here.
+//@ assert@return[C12,C05] #each (rerr error) uses lastErr=err? error, d=idpSsoDescriptor? IDPSSODescriptor, dSeen=reached:idpSsoDescriptor bool refuses_only_for_a_stated_reason:
+//@    rerr != nil ==> lastErr != nil ||
+//@      (dSeen && d.WantAuthnRequestsSigned != nil && *d.WantAuthnRequestsSigned) ||
+//@      (req.Request.Destination != "" && req.Request.Destination != req.IDP.SSOURL.String()) ||
+//@      ns(req.Request.IssueInstant)+int64(MaxIssueDelay) < ns(req.Now) ||
+//@      req.Request.Version != "2.0" || req.Request.Issuer == nil
 
 //@ contract (*IdpAuthnRequest).getSPEncryptionCert
 //@ requires[cfg] d: req.SPSSODescriptor != nil
@@ -565,11 +575,11 @@ package saml
 //@ contract (*Attribute).Element
 //@ ensures[C06] built: result != nil && ElName(result) == "saml:Attribute" && (a.Name != "" ==> ElAttr(result, "Name", a.Name)) &&
 //@    (a.FriendlyName != "" ==> ElAttr(result, "FriendlyName", a.FriendlyName)) && (a.NameFormat != "" ==> ElAttr(result, "NameFormat", a.NameFormat))
-//@ assert@call[C06] AddChild #1 (e *etree.Element, t etree.Token) uses el *etree.Element, v AttributeValue value_children: e == el && ElementOfAttributeValue(v, tokEl(t))
+//@ assert@call[C06] AddChild #each (e *etree.Element, t etree.Token) uses el *etree.Element, v AttributeValue value_children: e == el && ElementOfAttributeValue(v, tokEl(t))
 //@ records built: ElementOfAttribute(*a, result)
 //@ contract (*AttributeStatement).Element
 //@ ensures[C06] built: result != nil && ElName(result) == "saml:AttributeStatement"
-//@ assert@call[C06] AddChild #1 (e *etree.Element, t etree.Token) uses el *etree.Element, v Attribute attribute_children: e == el && ElementOfAttribute(v, tokEl(t))
+//@ assert@call[C06] AddChild #each (e *etree.Element, t etree.Token) uses el *etree.Element, v Attribute attribute_children: e == el && ElementOfAttribute(v, tokEl(t))
 //@ records built: ElementOfAttributeStatement(*a, result)
 //@ contract (*AuthnStatement).Element
 //@ ensures[C06] built: result != nil && ElName(result) == "saml:AuthnStatement" && ElAttr(result, "AuthnInstant", a.AuthnInstant.Format(timeFormat)) &&
@@ -580,7 +590,7 @@ package saml
 //@ records built: ElementOfAudience(a, result)
 //@ contract (*AudienceRestriction).Element
 //@ ensures[C06] built: result != nil && ElName(result) == "saml:AudienceRestriction"
-//@ assert@call[C06] AddChild #1 (e *etree.Element, t etree.Token) uses el *etree.Element audience_child: e == el && ElementOfAudience(&a.Audience, tokEl(t))
+//@ assert@call[C06] AddChild #each (e *etree.Element, t etree.Token) uses el *etree.Element audience_child: e == el && ElementOfAudience(&a.Audience, tokEl(t))
 //@ records built: ElementOfAudienceRestriction(*a, result)
 //@ contract (*SubjectConfirmationData).Element
 //@ ensures[C06] built: result != nil && ElName(result) == "saml:SubjectConfirmationData" &&
@@ -601,7 +611,7 @@ package saml
 //@ ensures[C06] built: result != nil && ElName(result) == "saml:Conditions" &&
 //@    (!c.NotBefore.IsZero() ==> ElAttr(result, "NotBefore", c.NotBefore.Format(timeFormat))) &&
 //@    (!c.NotOnOrAfter.IsZero() ==> ElAttr(result, "NotOnOrAfter", c.NotOnOrAfter.Format(timeFormat)))
-//@ assert@call[C06] AddChild #1 (e *etree.Element, t etree.Token) uses el *etree.Element, v AudienceRestriction audience_children: e == el && ElementOfAudienceRestriction(v, tokEl(t))
+//@ assert@call[C06] AddChild #each (e *etree.Element, t etree.Token) uses el *etree.Element, v AudienceRestriction audience_children: e == el && ElementOfAudienceRestriction(v, tokEl(t))
 //@ records built: ElementOfConditions(c, result)
 //@ contract (*Assertion).Element
 //@ ensures[C06] nonnil: result != nil
@@ -639,9 +649,9 @@ package saml
 //@ loop 1 vars certificates [][]byte
 //@ invariant[C06] leaf_first: len(certificates) == 1+iter && sameBytes(certificates[0], req.IDP.Certificate.Raw) &&
 //@    forall(0, iter, func(k int) bool { return sameBytes(certificates[k+1], req.IDP.Intermediates[k].Raw) })
-//@ assert@call[C06] NewSigningContext #1 (signer crypto.Signer, chain [][]byte) uses certificates [][]byte signer_with_chain:
+//@ assert@call[C06] NewSigningContext #each (signer crypto.Signer, chain [][]byte) uses certificates [][]byte signer_with_chain:
 //@    signer == req.IDP.Signer && sameChain(chain, certificates) && len(chain) == 1+len(req.IDP.Intermediates) && sameBytes(chain[0], req.IDP.Certificate.Raw)
-//@ assert@call[C06] NewDefaultSigningContext #1 (ks dsig.X509KeyStore) uses certificates [][]byte key_with_chain:
+//@ assert@call[C06] NewDefaultSigningContext #each (ks dsig.X509KeyStore) uses certificates [][]byte key_with_chain:
 //@    isTLSStore(ks) && sameChain(tlsStore(ks).Certificate, certificates) && tlsStore(ks).PrivateKey == req.IDP.Key && tlsStore(ks).Leaf == req.IDP.Certificate &&
 //@    len(tlsStore(ks).Certificate) == 1+len(req.IDP.Intermediates) && sameBytes(tlsStore(ks).Certificate[0], req.IDP.Certificate.Raw)
 //@ go func isTLSStore(ks dsig.X509KeyStore) bool { _, ok := ks.(dsig.TLSCertKeyStore); return ok }
@@ -653,13 +663,13 @@ package saml
 //@ requires[cfg] chain: forall(0, len(req.IDP.Intermediates), func(k int) bool { return req.IDP.Intermediates[k] != nil })
 //@ ensures[C06,C08,C09] set: err == nil ==> req.AssertionEl != nil
 //@ -- sign first: the element that leaves (in clear or encrypted) is built after the signature was attached
-//@ assert@call[C06] SignEnveloped #1 (ctx *dsig.SigningContext, el *etree.Element) signs_assertion: ElementOfAssertion(req.Assertion, el)
+//@ assert@call[C06] SignEnveloped #each (ctx *dsig.SigningContext, el *etree.Element) signs_assertion: ElementOfAssertion(req.Assertion, el)
 //@ -- C08: plaintext only if there is no usable encryption key descriptor; any other certificate error is an error
 //@ assert@store[C08] AssertionEl #1 uses err error clear_only_without_key: err == os.ErrNotExist
 //@ -- otherwise what leaves is a fresh EncryptedAssertion wrapping the encryptor's output for the signed assertion
 //@ assert@store[C08] AssertionEl #2 (stored *etree.Element) uses encryptedDataEl *etree.Element, signedAssertionEl *etree.Element wrapped:
 //@    stored != nil && stored != signedAssertionEl && encryptedDataEl != nil
-//@ assert@call[C08] Encrypt #1 (enc xmlenc.RSA, cert interface{}, plaintext []byte, nonce []byte) uses certBuf *x509.Certificate encrypts_to_sp_key:
+//@ assert@call[C08] Encrypt #each (enc xmlenc.RSA, cert interface{}, plaintext []byte, nonce []byte) uses certBuf *x509.Certificate encrypts_to_sp_key:
 //@    enc.BlockCipher == xmlenc.AES128CBC && certIs(cert, certBuf) && certBuf != nil
 //@ go func certIs(c interface{}, k *x509.Certificate) bool { x, ok := c.(*x509.Certificate); return ok && x == k }
 
@@ -740,13 +750,13 @@ package saml
 //@ requires[cfg] chain: forall(0, len(req.IDP.Intermediates), func(k int) bool { return req.IDP.Intermediates[k] != nil })
 //@ ensures[C06,C09] set: err == nil ==> req.ResponseEl != nil && req.AssertionEl != nil
 //@ -- the Response is addressed to the selected endpoint, answers this request, is issued by this IdP now, with status Success
-//@ assert@call[C06] Element #1 (r *Response) response_fields:
+//@ assert@call[C06] Element #each (r *Response) response_fields:
 //@    r != nil && r.Destination == req.ACSEndpoint.Location && r.InResponseTo == req.Request.ID && ns(r.IssueInstant) == ns(req.Now) &&
 //@    r.Issuer != nil && r.Issuer.Value == req.IDP.MetadataURL.String() && r.Status.StatusCode.Value == StatusSuccess && r.Version == "2.0"
 //@ -- the response element that is signed already carries the (signed, possibly encrypted) assertion element
-//@ assert@call[C06] SignEnveloped #1 (ctx *dsig.SigningContext, el *etree.Element) uses response *Response signs_response: ElementOfResponse(response, el)
+//@ assert@call[C06] SignEnveloped #each (ctx *dsig.SigningContext, el *etree.Element) uses response *Response signs_response: ElementOfResponse(response, el)
 //@ -- the emitted element is rebuilt from the response that now holds the signature, and carries the assertion element again
-//@ assert@store[C06] ResponseEl #1 (stored *etree.Element) uses response *Response emits_signed_response:
+//@ assert@store[C06] ResponseEl #each (stored *etree.Element) uses response *Response emits_signed_response:
 //@    stored != nil && response.Signature != nil && ElementOfResponse(response, stored)
 //@ assert@call[C06,C08] AddChild #2 (parent *etree.Element, child etree.Token) carries_assertion_el: tokenIs(child, req.AssertionEl)
 //@ go func tokenIs(t etree.Token, el *etree.Element) bool { x, ok := t.(*etree.Element); return ok && x == el }
@@ -764,9 +774,14 @@ package saml
 //@ requires[cfg] a: req.Assertion != nil && req.SPSSODescriptor != nil && req.ACSEndpoint != nil && req.ServiceProviderMetadata != nil
 //@ requires[cfg] chain: forall(0, len(req.IDP.Intermediates), func(k int) bool { return req.IDP.Intermediates[k] != nil })
 //@ -- C14: the form is rendered by html/template with the peer-controlled strings as data
-//@ assert@call[C14,C06] Execute #1 (t *template.Template, out io.Writer, data interface{}) html_template_with_form_data:
+//@ assert@call[C14,C06] Execute #each (t *template.Template, out io.Writer, data interface{}) html_template_with_form_data:
 //@    t != nil && (t == req.IDP.ResponseFormTemplate || (req.IDP.ResponseFormTemplate == nil && t == defaultResponseFormTemplate)) && isForm(data)
 //@ go func isForm(d interface{}) bool { _, ok := d.(IdpAuthnRequestForm); return ok }
+//@ -- C19 (each request receives exactly one well-formed reply): the template is executed into a buffer of this call, and the
+//@ -- response writer sees the form only once rendering has succeeded - a template that fails half-way must not have sent
+//@ -- the first half (with the signed response in it) ahead of the caller's 500
+//@ go func intoOwnBuffer(out io.Writer) bool { b, ok := out.(*bytes.Buffer); return ok && allocatedHere(b) }
+//@ assert@call[C19,C14] Execute #each (t *template.Template, out io.Writer, data interface{}) rendered_before_it_is_sent: intoOwnBuffer(out)
 
 //@ go func idpConfigured(idp *IdentityProvider) bool {
 //@    return idp.Certificate != nil && idp.ServiceProviderProvider != nil && idp.SessionProvider != nil && idp.Logger != nil &&
@@ -777,27 +792,27 @@ package saml
 //@ ensures[C05,C09] nil_iff_err: (result == nil) == (err != nil)
 //@ ensures[C05] fields: err == nil ==> result.IDP == idp && result.HTTPRequest == r
 //@ -- the redirect binding inflates through the bounded reader
-//@ assert@call[C05,C09] ReadAll #1 (rd io.Reader) bounded_inflate: isSaferFlateReader(rd)
+//@ assert@call[C05,C09] ReadAll #each (rd io.Reader) bounded_inflate: isSaferFlateReader(rd)
 
 //@ contract (*IdentityProvider).ServeSSO
 //@ requires[cfg] idp: idpConfigured(idp)
 //@ requires[cfg] r: r != nil && r.URL != nil && w != nil
 //@ -- a response is written only for a validated request, an existing session and a registered endpoint
-//@ assert@call[C05,C19] WriteResponse #1 (rq *IdpAuthnRequest) uses session *Session only_authenticated: session != nil
-//@ assert@call[C05,C19] WriteResponse #1 (rq *IdpAuthnRequest) same_idp: rq.IDP == idp
-//@ assert@call[C05,C19] WriteResponse #1 (rq *IdpAuthnRequest) only_registered_endpoint: registeredACS(rq)
-//@ assert@call[C05,C19] WriteResponse #1 (rq *IdpAuthnRequest) only_known_sp: rq.Request.Issuer != nil &&
+//@ assert@call[C05,C19] WriteResponse #each (rq *IdpAuthnRequest) uses session *Session only_authenticated: session != nil
+//@ assert@call[C05,C19] WriteResponse #each (rq *IdpAuthnRequest) same_idp: rq.IDP == idp
+//@ assert@call[C05,C19] WriteResponse #each (rq *IdpAuthnRequest) only_registered_endpoint: registeredACS(rq)
+//@ assert@call[C05,C19] WriteResponse #each (rq *IdpAuthnRequest) only_known_sp: rq.Request.Issuer != nil &&
 //@    RegistryHas(idp.ServiceProviderProvider, rq.Request.Issuer.Value, rq.ServiceProviderMetadata)
-//@ assert@call[C05] WriteResponse #1 (rq *IdpAuthnRequest) only_fresh_v2: ns(rq.Now) <= ns(rq.Request.IssueInstant)+int64(MaxIssueDelay) && rq.Request.Version == "2.0"
+//@ assert@call[C05] WriteResponse #each (rq *IdpAuthnRequest) only_fresh_v2: ns(rq.Now) <= ns(rq.Request.IssueInstant)+int64(MaxIssueDelay) && rq.Request.Version == "2.0"
 
 //@ contract (*IdentityProvider).ServeIDPInitiated
 //@ requires[cfg] idp: idpConfigured(idp)
 //@ requires[cfg] r: r != nil && r.URL != nil && w != nil
 //@ -- IdP-initiated: a response only with a session, to a provider the registry knows now, at one of its POST endpoints
-//@ assert@call[C05,C19] WriteResponse #1 (rq *IdpAuthnRequest) uses session *Session only_registered_and_authenticated:
+//@ assert@call[C05,C19] WriteResponse #each (rq *IdpAuthnRequest) uses session *Session only_registered_and_authenticated:
 //@    session != nil && rq.IDP == idp && registeredACS(rq) && rq.ACSEndpoint.Binding == HTTPPostBinding &&
 //@    RegistryHas(idp.ServiceProviderProvider, serviceProviderID, rq.ServiceProviderMetadata) && rq.RelayState == relayState
-//@ assert@call[C05,C06,C08] WriteResponse #1 (rq *IdpAuthnRequest) endpoint_of_the_selected_role: sameRole(rq)
+//@ assert@call[C05,C06,C08] WriteResponse #each (rq *IdpAuthnRequest) endpoint_of_the_selected_role: sameRole(rq)
 //@ loop 1 vars req *IdpAuthnRequest
 //@ invariant[C05] not_yet: req.ACSEndpoint == nil
 
@@ -820,16 +835,16 @@ package saml
 //@ -- exactly SAMLRequest=esc(req)[&RelayState=esc(relayState)]&SigAlg=esc(method) - without any query the IdP endpoint
 //@ -- already carried - and they appear unchanged in the emitted query, followed by &Signature=
 //@ -- the browser is sent to the destination the request names (and, when signed, was signed for)
-//@ assert@call[C12,C13] Parse #1 (raw string) redirect_to_named_destination: raw == r.Destination
-//@ assert@store[C12] RawQuery #1 (stored string) uses rv *url.URL, requestStr strings.Builder unsigned_query:
+//@ assert@call[C12,C13] Parse #each (raw string) redirect_to_named_destination: raw == r.Destination
+//@ assert@store[C12] RawQuery #each (stored string) uses rv *url.URL, requestStr strings.Builder unsigned_query:
 //@    len(sp.SignatureMethod) == 0 ==> stored == redirectQuery(rv.RawQuery, requestStr.String(), relayState)
-//@ assert@call[C12,C13] SignString #1 (ctx *dsig.SigningContext, content string) uses rv *url.URL, requestStr strings.Builder signed_octets:
+//@ assert@call[C12,C13] SignString #each (ctx *dsig.SigningContext, content string) uses rv *url.URL, requestStr strings.Builder signed_octets:
 //@    content == redirectQuery("", requestStr.String(), relayState) + "&SigAlg=" + url.QueryEscape(sp.SignatureMethod)
 //@ -- what goes out as Signature= is what a signing call that SUCCEEDED returned for exactly those octets (a failed call's
 //@ -- empty result is not a signature)
 //@ assert@call[C13] (*encoding/base64.Encoding).EncodeToString #last (enc *base64.Encoding, sig []byte) uses requestStr strings.Builder emits_the_signers_output:
 //@    SignatureOver(sig, redirectQuery("", requestStr.String(), relayState) + "&SigAlg=" + url.QueryEscape(sp.SignatureMethod))
-//@ assert@store[C13] RawQuery #1 (stored string) uses rv *url.URL, requestStr strings.Builder signature_appended:
+//@ assert@store[C13] RawQuery #each (stored string) uses rv *url.URL, requestStr strings.Builder signature_appended:
 //@    len(sp.SignatureMethod) > 0 ==> strings.HasPrefix(stored, redirectBase(rv.RawQuery) +
 //@      redirectQuery("", requestStr.String(), relayState) + "&SigAlg=" + url.QueryEscape(sp.SignatureMethod) + "&Signature=")
 
@@ -866,56 +881,56 @@ package saml
 //@ contract (*ServiceProvider).MakeRedirectAuthenticationRequest
 //@ requires[cfg] md: sp.IDPMetadata != nil
 //@ requires[cfg] cert: len(sp.SignatureMethod) == 0 || sp.Certificate != nil
-//@ assert@call[C12] GetSSOBindingLocation #1 (s *ServiceProvider, b string) redirect_endpoint_looked_up: s == sp && b == HTTPRedirectBinding
-//@ assert@call[C12] MakeAuthenticationRequest #1 (s *ServiceProvider, idpURL string, binding string, resultBinding string) request_for_redirect_binding:
+//@ assert@call[C12] GetSSOBindingLocation #each (s *ServiceProvider, b string) redirect_endpoint_looked_up: s == sp && b == HTTPRedirectBinding
+//@ assert@call[C12] MakeAuthenticationRequest #each (s *ServiceProvider, idpURL string, binding string, resultBinding string) request_for_redirect_binding:
 //@    s == sp && binding == HTTPRedirectBinding
-//@ assert@call[C12] Redirect #1 (r *AuthnRequest, rs string, s *ServiceProvider) uses req *AuthnRequest relay_state_unchanged: r == req && rs == relayState && s == sp
+//@ assert@call[C12] Redirect #each (r *AuthnRequest, rs string, s *ServiceProvider) uses req *AuthnRequest relay_state_unchanged: r == req && rs == relayState && s == sp
 //@ contract (*ServiceProvider).MakePostAuthenticationRequest
 //@ requires[cfg] md: sp.IDPMetadata != nil
 //@ requires[cfg] cert: len(sp.SignatureMethod) == 0 || sp.Certificate != nil
-//@ assert@call[C12] GetSSOBindingLocation #1 (s *ServiceProvider, b string) post_endpoint_looked_up: s == sp && b == HTTPPostBinding
-//@ assert@call[C12] MakeAuthenticationRequest #1 (s *ServiceProvider, idpURL string, binding string, resultBinding string) request_for_post_binding:
+//@ assert@call[C12] GetSSOBindingLocation #each (s *ServiceProvider, b string) post_endpoint_looked_up: s == sp && b == HTTPPostBinding
+//@ assert@call[C12] MakeAuthenticationRequest #each (s *ServiceProvider, idpURL string, binding string, resultBinding string) request_for_post_binding:
 //@    s == sp && binding == HTTPPostBinding
-//@ assert@call[C12] Post #1 (r *AuthnRequest, rs string) uses req *AuthnRequest relay_state_unchanged: r == req && rs == relayState
+//@ assert@call[C12] Post #each (r *AuthnRequest, rs string) uses req *AuthnRequest relay_state_unchanged: r == req && rs == relayState
 //@ contract (*ServiceProvider).MakeRedirectLogoutRequest
 //@ requires[cfg] md: sp.IDPMetadata != nil
 //@ requires[cfg] cert: len(sp.SignatureMethod) == 0 || sp.Certificate != nil
 //@ requires[cfg] chain: certsOK(sp.Intermediates)
-//@ assert@call[C12] GetSLOBindingLocation #1 (s *ServiceProvider, b string) redirect_endpoint_looked_up: s == sp && b == HTTPRedirectBinding
-//@ assert@call[C12] MakeLogoutRequest #1 (s *ServiceProvider, idpURL string, id string) request_with_given_id:
+//@ assert@call[C12] GetSLOBindingLocation #each (s *ServiceProvider, b string) redirect_endpoint_looked_up: s == sp && b == HTTPRedirectBinding
+//@ assert@call[C12] MakeLogoutRequest #each (s *ServiceProvider, idpURL string, id string) request_with_given_id:
 //@    s == sp && id == nameID
-//@ assert@call[C12] Redirect #1 (r *LogoutRequest, rs string) uses req *LogoutRequest relay_state_unchanged: r == req && rs == relayState
+//@ assert@call[C12] Redirect #each (r *LogoutRequest, rs string) uses req *LogoutRequest relay_state_unchanged: r == req && rs == relayState
 //@ contract (*ServiceProvider).MakePostLogoutRequest
 //@ requires[cfg] md: sp.IDPMetadata != nil
 //@ requires[cfg] cert: len(sp.SignatureMethod) == 0 || sp.Certificate != nil
 //@ requires[cfg] chain: certsOK(sp.Intermediates)
-//@ assert@call[C12] GetSLOBindingLocation #1 (s *ServiceProvider, b string) post_endpoint_looked_up: s == sp && b == HTTPPostBinding
-//@ assert@call[C12] MakeLogoutRequest #1 (s *ServiceProvider, idpURL string, id string) request_with_given_id:
+//@ assert@call[C12] GetSLOBindingLocation #each (s *ServiceProvider, b string) post_endpoint_looked_up: s == sp && b == HTTPPostBinding
+//@ assert@call[C12] MakeLogoutRequest #each (s *ServiceProvider, idpURL string, id string) request_with_given_id:
 //@    s == sp && id == nameID
-//@ assert@call[C12] Post #1 (r *LogoutRequest, rs string) uses req *LogoutRequest relay_state_unchanged: r == req && rs == relayState
+//@ assert@call[C12] Post #each (r *LogoutRequest, rs string) uses req *LogoutRequest relay_state_unchanged: r == req && rs == relayState
 //@ contract (*ServiceProvider).MakeRedirectLogoutResponse
 //@ requires[cfg] md: sp.IDPMetadata != nil
 //@ requires[cfg] cert: len(sp.SignatureMethod) == 0 || sp.Certificate != nil
 //@ requires[cfg] chain: certsOK(sp.Intermediates)
-//@ assert@call[C12] GetSLOBindingLocation #1 (s *ServiceProvider, b string) redirect_endpoint_looked_up: s == sp && b == HTTPRedirectBinding
-//@ assert@call[C12] MakeLogoutResponse #1 (s *ServiceProvider, idpURL string, id string) response_with_given_id:
+//@ assert@call[C12] GetSLOBindingLocation #each (s *ServiceProvider, b string) redirect_endpoint_looked_up: s == sp && b == HTTPRedirectBinding
+//@ assert@call[C12] MakeLogoutResponse #each (s *ServiceProvider, idpURL string, id string) response_with_given_id:
 //@    s == sp && id == logoutRequestID
-//@ assert@call[C12] Redirect #1 (r *LogoutResponse, rs string) uses resp *LogoutResponse relay_state_unchanged: r == resp && rs == relayState
+//@ assert@call[C12] Redirect #each (r *LogoutResponse, rs string) uses resp *LogoutResponse relay_state_unchanged: r == resp && rs == relayState
 //@ contract (*ServiceProvider).MakePostLogoutResponse
 //@ requires[cfg] md: sp.IDPMetadata != nil
 //@ requires[cfg] cert: len(sp.SignatureMethod) == 0 || sp.Certificate != nil
 //@ requires[cfg] chain: certsOK(sp.Intermediates)
-//@ assert@call[C12] GetSLOBindingLocation #1 (s *ServiceProvider, b string) post_endpoint_looked_up: s == sp && b == HTTPPostBinding
-//@ assert@call[C12] MakeLogoutResponse #1 (s *ServiceProvider, idpURL string, id string) response_with_given_id:
+//@ assert@call[C12] GetSLOBindingLocation #each (s *ServiceProvider, b string) post_endpoint_looked_up: s == sp && b == HTTPPostBinding
+//@ assert@call[C12] MakeLogoutResponse #each (s *ServiceProvider, idpURL string, id string) response_with_given_id:
 //@    s == sp && id == logoutRequestID
-//@ assert@call[C12] Post #1 (r *LogoutResponse, rs string) uses resp *LogoutResponse relay_state_unchanged: r == resp && rs == relayState
+//@ assert@call[C12] Post #each (r *LogoutResponse, rs string) uses resp *LogoutResponse relay_state_unchanged: r == resp && rs == relayState
 
 //@ -- logout redirects: the relay state, when given, is set as the RelayState parameter on every path, unmodified
 //@ contract (*LogoutRequest).Redirect
-//@ assert@call[C12] Encode #1 (q url.Values) relay_state_forwarded:
+//@ assert@call[C12] Encode #each (q url.Values) relay_state_forwarded:
 //@    relayState != "" ==> ValuesHas(q, "RelayState", relayState)
 //@ contract (*LogoutResponse).Redirect
-//@ assert@call[C12] Encode #1 (q url.Values) relay_state_forwarded:
+//@ assert@call[C12] Encode #each (q url.Values) relay_state_forwarded:
 //@    relayState != "" ==> ValuesHas(q, "RelayState", relayState)
 
 //@ -- POST forms: rendered by html/template from a constant template; destination, encoded message and relay state are data
@@ -933,15 +948,15 @@ package saml
 //@ -- pool, a package variable or another request still holds and will write to (engine builtin, see DESIGN.md 2.3)
 //@ ghost func allocatedHere(b *bytes.Buffer) bool
 //@ contract (*AuthnRequest).Post
-//@ assert@call[C12,C14] (*html/template.Template).Execute #1 (t *template.Template, out io.Writer, data interface{}) form_data:
+//@ assert@call[C12,C14] (*html/template.Template).Execute #each (t *template.Template, out io.Writer, data interface{}) form_data:
 //@    isRequestPostData(data) && postDataURL(data) == r.Destination && postDataRelay(data) == relayState
 //@ assert@call[C12,C14] (*bytes.Buffer).Bytes #each (b *bytes.Buffer) form_is_the_callers_own: allocatedHere(b)
 //@ contract (*LogoutRequest).Post
-//@ assert@call[C12,C14] (*html/template.Template).Execute #1 (t *template.Template, out io.Writer, data interface{}) form_data:
+//@ assert@call[C12,C14] (*html/template.Template).Execute #each (t *template.Template, out io.Writer, data interface{}) form_data:
 //@    isRequestPostData(data) && postDataURL(data) == r.Destination && postDataRelay(data) == relayState
 //@ assert@call[C12,C14] (*bytes.Buffer).Bytes #each (b *bytes.Buffer) form_is_the_callers_own: allocatedHere(b)
 //@ contract (*LogoutResponse).Post
-//@ assert@call[C12,C14] (*html/template.Template).Execute #1 (t *template.Template, out io.Writer, data interface{}) form_data:
+//@ assert@call[C12,C14] (*html/template.Template).Execute #each (t *template.Template, out io.Writer, data interface{}) form_data:
 //@    isResponsePostData(data) && responsePostURL(data) == r.Destination && responsePostRelay(data) == relayState
 //@ assert@call[C12,C14] (*bytes.Buffer).Bytes #each (b *bytes.Buffer) form_is_the_callers_own: allocatedHere(b)
 
@@ -957,7 +972,7 @@ package saml
 //@ contract (*ServiceProvider).MakeAuthenticationRequest
 //@ requires[cfg] cert: len(sp.SignatureMethod) == 0 || sp.Certificate != nil
 //@ ensures[C12,C09] nil_iff_err: (result == nil) == (err != nil)
-//@ assert@call[C12] Sprintf #1 (format string, a []interface{}) fresh_id: format == "id-%x" && idArgOK(a)
+//@ assert@call[C12] Sprintf #each (format string, a []interface{}) fresh_id: format == "id-%x" && idArgOK(a)
 //@ ensures[C12] fields: err == nil ==> result.Destination == idpURL && result.AssertionConsumerServiceURL == sp.AcsURL.String() &&
 //@    result.ProtocolBinding == resultBinding && result.Version == "2.0" && result.Issuer != nil && result.Issuer.Value == spIssuer(sp) &&
 //@    result.NameIDPolicy != nil && result.NameIDPolicy.Format != nil && result.ForceAuthn == sp.ForceAuthn &&
@@ -975,7 +990,7 @@ package saml
 //@ requires[cfg] md: sp.IDPMetadata != nil
 //@ requires[cfg] cert: len(sp.SignatureMethod) == 0 || sp.Certificate != nil
 //@ ensures[C12,C09] nil_iff_err: (result == nil) == (err != nil)
-//@ assert@call[C12] Sprintf #1 (format string, a []interface{}) fresh_id: format == "id-%x" && idArgOK(a)
+//@ assert@call[C12] Sprintf #each (format string, a []interface{}) fresh_id: format == "id-%x" && idArgOK(a)
 //@ ensures[C12] fields: err == nil ==> result.Destination == idpURL && result.Version == "2.0" && result.Issuer != nil &&
 //@    result.Issuer.Value == spIssuer(sp) && result.NameID != nil && result.NameID.Value == nameID && ns(result.IssueInstant) == ns(TimeNow())
 //@ ensures[C13] signed: err == nil && sp.SignatureMethod != "" ==> result.Signature != nil
@@ -984,7 +999,7 @@ package saml
 //@ contract (*ServiceProvider).MakeLogoutResponse
 //@ requires[cfg] cert: len(sp.SignatureMethod) == 0 || sp.Certificate != nil
 //@ ensures[C12,C09] nil_iff_err: (result == nil) == (err != nil)
-//@ assert@call[C12] Sprintf #1 (format string, a []interface{}) fresh_id: format == "id-%x" && idArgOK(a)
+//@ assert@call[C12] Sprintf #each (format string, a []interface{}) fresh_id: format == "id-%x" && idArgOK(a)
 //@ ensures[C12] fields: err == nil ==> result.Destination == idpURL && result.InResponseTo == logoutRequestID && result.Version == "2.0" &&
 //@    result.Issuer != nil && result.Issuer.Value == spIssuer(sp) && result.Status.StatusCode.Value == StatusSuccess
 //@ ensures[C13] signed: err == nil && sp.SignatureMethod != "" ==> result.Signature != nil
@@ -992,7 +1007,7 @@ package saml
 
 //@ contract (*ServiceProvider).MakeArtifactResolveRequest
 //@ requires[cfg] cert: len(sp.SignatureMethod) == 0 || sp.Certificate != nil
-//@ assert@call[C12] Sprintf #1 (format string, a []interface{}) fresh_id: format == "id-%x" && idArgOK(a)
+//@ assert@call[C12] Sprintf #each (format string, a []interface{}) fresh_id: format == "id-%x" && idArgOK(a)
 //@ ensures[C12] fields: err == nil ==> result.Artifact == artifactID && result.Version == "2.0" && result.Issuer != nil && result.Issuer.Value == spIssuer(sp)
 //@ ensures[C13] signed: err == nil && len(sp.SignatureMethod) > 0 ==> result.Signature != nil
 //@ ensures[C13] unchanged_after_signing: err == nil && len(sp.SignatureMethod) > 0 ==> ArtifactResolveSignedAs(*result, nil)
@@ -1080,28 +1095,28 @@ package saml
 //@    ElAttr(result, "IssueInstant", r.IssueInstant.Format(timeFormat))
 //@ ensures[C12,C13] signature_child: r.Signature != nil ==> ElChild(result, r.Signature)
 //@ assert@call[C12] AddChild #1 (e *etree.Element, t etree.Token) uses el *etree.Element issuer_child: e == el && r.Issuer != nil && ElementOfIssuer(r.Issuer, tokEl(t))
-//@ assert@call[C12] SetText #1 (e *etree.Element, text string) artifact_text: text == r.Artifact && ElName(e) == "samlp:Artifact"
+//@ assert@call[C12] SetText #each (e *etree.Element, text string) artifact_text: text == r.Artifact && ElName(e) == "samlp:Artifact"
 //@ records built: ElementOfArtifactResolve(r, result)
 //@ ghost func ElementOfArtifactResolve(r *ArtifactResolve, el *etree.Element) bool
 
 //@ contract (*ServiceProvider).SignAuthnRequest
 //@ requires[cfg] a: req != nil && sp.Certificate != nil
-//@ assert@call[C13] SignEnveloped #1 (ctx *dsig.SigningContext, el *etree.Element) signs_message: ElementOfAuthnRequest(req, el) && CtxMethod(ctx) == sp.SignatureMethod
+//@ assert@call[C13] SignEnveloped #each (ctx *dsig.SigningContext, el *etree.Element) signs_message: ElementOfAuthnRequest(req, el) && CtxMethod(ctx) == sp.SignatureMethod
 //@ ensures[C13] stored: err == nil ==> req.Signature != nil
 //@ records signed_value: AuthnRequestSignedAs(*req, err)
 //@ contract (*ServiceProvider).SignLogoutRequest
 //@ requires[cfg] a: req != nil && sp.Certificate != nil
-//@ assert@call[C13] SignEnveloped #1 (ctx *dsig.SigningContext, el *etree.Element) signs_message: ElementOfLogoutRequest(req, el) && CtxMethod(ctx) == sp.SignatureMethod
+//@ assert@call[C13] SignEnveloped #each (ctx *dsig.SigningContext, el *etree.Element) signs_message: ElementOfLogoutRequest(req, el) && CtxMethod(ctx) == sp.SignatureMethod
 //@ ensures[C13] stored: err == nil ==> req.Signature != nil
 //@ records signed_value: LogoutRequestSignedAs(*req, err)
 //@ contract (*ServiceProvider).SignLogoutResponse
 //@ requires[cfg] a: resp != nil && sp.Certificate != nil
-//@ assert@call[C13] SignEnveloped #1 (ctx *dsig.SigningContext, el *etree.Element) signs_message: ElementOfLogoutResponse(resp, el) && CtxMethod(ctx) == sp.SignatureMethod
+//@ assert@call[C13] SignEnveloped #each (ctx *dsig.SigningContext, el *etree.Element) signs_message: ElementOfLogoutResponse(resp, el) && CtxMethod(ctx) == sp.SignatureMethod
 //@ ensures[C13] stored: err == nil ==> resp.Signature != nil
 //@ records signed_value: LogoutResponseSignedAs(*resp, err)
 //@ contract (*ServiceProvider).SignArtifactResolve
 //@ requires[cfg] a: req != nil && sp.Certificate != nil
-//@ assert@call[C13] SignEnveloped #1 (ctx *dsig.SigningContext, el *etree.Element) signs_message: ElementOfArtifactResolve(req, el) && CtxMethod(ctx) == sp.SignatureMethod
+//@ assert@call[C13] SignEnveloped #each (ctx *dsig.SigningContext, el *etree.Element) signs_message: ElementOfArtifactResolve(req, el) && CtxMethod(ctx) == sp.SignatureMethod
 //@ ensures[C13] stored: err == nil ==> req.Signature != nil
 //@ records signed_value: ArtifactResolveSignedAs(*req, err)
 //@ -- XSignedAs(v, err): Sign* returned err having signed the element built from the message, and v is the message value
@@ -1258,32 +1273,32 @@ package saml
 //@ -- was decoded into aux.F, marshalling encodes an alias struct whose aux.F is F.
 //@ import xml "encoding/xml"
 //@ contract (*LogoutRequest).MarshalXML
-//@ assert@call[C15,C02] Encode #1 (enc *xml.Encoder, v interface{}) uses aIssueInstant=aux.IssueInstant RelaxedTime, aNotOnOrAfter=aux.NotOnOrAfter *RelaxedTime alias_fields_from_struct: time.Time(aIssueInstant) == r.IssueInstant && (*time.Time)(aNotOnOrAfter) == r.NotOnOrAfter
+//@ assert@call[C15,C02] Encode #each (enc *xml.Encoder, v interface{}) uses aIssueInstant=aux.IssueInstant RelaxedTime, aNotOnOrAfter=aux.NotOnOrAfter *RelaxedTime alias_fields_from_struct: time.Time(aIssueInstant) == r.IssueInstant && (*time.Time)(aNotOnOrAfter) == r.NotOnOrAfter
 //@ contract (*LogoutRequest).UnmarshalXML
 //@ -- on success every such field holds what was decoded into its alias field (whichever statements do the copying,
 //@ -- and on every successful return: a return that skips one of the copies fails here)
 //@ assert@return[C15,C02] #each (rerr error) uses aIssueInstant=aux.IssueInstant RelaxedTime, aNotOnOrAfter=aux.NotOnOrAfter *RelaxedTime fields_from_their_aliases: rerr == nil ==> r.IssueInstant == time.Time(aIssueInstant) && r.NotOnOrAfter == (*time.Time)(aNotOnOrAfter)
 //@ contract (*AuthnRequest).MarshalXML
-//@ assert@call[C15,C02] Encode #1 (enc *xml.Encoder, v interface{}) uses aIssueInstant=aux.IssueInstant RelaxedTime alias_fields_from_struct: time.Time(aIssueInstant) == r.IssueInstant
+//@ assert@call[C15,C02] Encode #each (enc *xml.Encoder, v interface{}) uses aIssueInstant=aux.IssueInstant RelaxedTime alias_fields_from_struct: time.Time(aIssueInstant) == r.IssueInstant
 //@ contract (*AuthnRequest).UnmarshalXML
 //@ -- on success every such field holds what was decoded into its alias field (whichever statements do the copying,
 //@ -- and on every successful return: a return that skips one of the copies fails here)
 //@ -- (C05: the instant whose freshness Validate judges is the instant the request carried)
 //@ assert@return[C15,C02,C05] #each (rerr error) uses aIssueInstant=aux.IssueInstant RelaxedTime fields_from_their_aliases: rerr == nil ==> r.IssueInstant == time.Time(aIssueInstant)
 //@ contract (*ArtifactResolve).MarshalXML
-//@ assert@call[C15,C02] Encode #1 (enc *xml.Encoder, v interface{}) uses aIssueInstant=aux.IssueInstant RelaxedTime alias_fields_from_struct: time.Time(aIssueInstant) == r.IssueInstant
+//@ assert@call[C15,C02] Encode #each (enc *xml.Encoder, v interface{}) uses aIssueInstant=aux.IssueInstant RelaxedTime alias_fields_from_struct: time.Time(aIssueInstant) == r.IssueInstant
 //@ contract (*ArtifactResolve).UnmarshalXML
 //@ -- on success every such field holds what was decoded into its alias field (whichever statements do the copying,
 //@ -- and on every successful return: a return that skips one of the copies fails here)
 //@ assert@return[C15,C02] #each (rerr error) uses aIssueInstant=aux.IssueInstant RelaxedTime fields_from_their_aliases: rerr == nil ==> r.IssueInstant == time.Time(aIssueInstant)
 //@ contract (*ArtifactResponse).MarshalXML
-//@ assert@call[C15,C02] Encode #1 (enc *xml.Encoder, v interface{}) uses aIssueInstant=aux.IssueInstant RelaxedTime alias_fields_from_struct: time.Time(aIssueInstant) == r.IssueInstant
+//@ assert@call[C15,C02] Encode #each (enc *xml.Encoder, v interface{}) uses aIssueInstant=aux.IssueInstant RelaxedTime alias_fields_from_struct: time.Time(aIssueInstant) == r.IssueInstant
 //@ contract (*ArtifactResponse).UnmarshalXML
 //@ -- on success every such field holds what was decoded into its alias field (whichever statements do the copying,
 //@ -- and on every successful return: a return that skips one of the copies fails here)
 //@ assert@return[C15,C02] #each (rerr error) uses aIssueInstant=aux.IssueInstant RelaxedTime fields_from_their_aliases: rerr == nil ==> r.IssueInstant == time.Time(aIssueInstant)
 //@ contract (*Response).MarshalXML
-//@ assert@call[C15,C02] Encode #1 (enc *xml.Encoder, v interface{}) uses aIssueInstant=aux.IssueInstant RelaxedTime alias_fields_from_struct: time.Time(aIssueInstant) == r.IssueInstant
+//@ assert@call[C15,C02] Encode #each (enc *xml.Encoder, v interface{}) uses aIssueInstant=aux.IssueInstant RelaxedTime alias_fields_from_struct: time.Time(aIssueInstant) == r.IssueInstant
 //@ contract (*Response).UnmarshalXML
 //@ -- on success every such field holds what was decoded into its alias field (whichever statements do the copying,
 //@ -- and on every successful return: a return that skips one of the copies fails here)
@@ -1293,31 +1308,31 @@ package saml
 //@ -- and on every successful return: a return that skips one of the copies fails here)
 //@ assert@return[C15,C02] #each (rerr error) uses aIssueInstant=aux.IssueInstant RelaxedTime fields_from_their_aliases: rerr == nil ==> a.IssueInstant == time.Time(aIssueInstant)
 //@ contract (*SubjectConfirmationData).MarshalXML
-//@ assert@call[C15,C02] EncodeElement #1 (enc *xml.Encoder, v interface{}, st xml.StartElement) uses aNotOnOrAfter=aux.NotOnOrAfter RelaxedTime alias_fields_from_struct: time.Time(aNotOnOrAfter) == s.NotOnOrAfter
+//@ assert@call[C15,C02] EncodeElement #each (enc *xml.Encoder, v interface{}, st xml.StartElement) uses aNotOnOrAfter=aux.NotOnOrAfter RelaxedTime alias_fields_from_struct: time.Time(aNotOnOrAfter) == s.NotOnOrAfter
 //@ contract (*SubjectConfirmationData).UnmarshalXML
 //@ -- on success every such field holds what was decoded into its alias field (whichever statements do the copying,
 //@ -- and on every successful return: a return that skips one of the copies fails here)
 //@ assert@return[C15,C02] #each (rerr error) uses aNotOnOrAfter=aux.NotOnOrAfter RelaxedTime fields_from_their_aliases: rerr == nil ==> s.NotOnOrAfter == time.Time(aNotOnOrAfter)
 //@ contract (*Conditions).MarshalXML
-//@ assert@call[C15,C02] EncodeElement #1 (enc *xml.Encoder, v interface{}, st xml.StartElement) uses aNotBefore=aux.NotBefore RelaxedTime, aNotOnOrAfter=aux.NotOnOrAfter RelaxedTime alias_fields_from_struct: time.Time(aNotBefore) == c.NotBefore && time.Time(aNotOnOrAfter) == c.NotOnOrAfter
+//@ assert@call[C15,C02] EncodeElement #each (enc *xml.Encoder, v interface{}, st xml.StartElement) uses aNotBefore=aux.NotBefore RelaxedTime, aNotOnOrAfter=aux.NotOnOrAfter RelaxedTime alias_fields_from_struct: time.Time(aNotBefore) == c.NotBefore && time.Time(aNotOnOrAfter) == c.NotOnOrAfter
 //@ contract (*Conditions).UnmarshalXML
 //@ -- on success every such field holds what was decoded into its alias field (whichever statements do the copying,
 //@ -- and on every successful return: a return that skips one of the copies fails here)
 //@ assert@return[C15,C02] #each (rerr error) uses aNotBefore=aux.NotBefore RelaxedTime, aNotOnOrAfter=aux.NotOnOrAfter RelaxedTime fields_from_their_aliases: rerr == nil ==> c.NotBefore == time.Time(aNotBefore) && c.NotOnOrAfter == time.Time(aNotOnOrAfter)
 //@ contract (*AuthnStatement).MarshalXML
-//@ assert@call[C15,C02] EncodeElement #1 (enc *xml.Encoder, v interface{}, st xml.StartElement) uses aAuthnInstant=aux.AuthnInstant RelaxedTime, aSessionNotOnOrAfter=aux.SessionNotOnOrAfter *RelaxedTime alias_fields_from_struct: time.Time(aAuthnInstant) == a.AuthnInstant && (*time.Time)(aSessionNotOnOrAfter) == a.SessionNotOnOrAfter
+//@ assert@call[C15,C02] EncodeElement #each (enc *xml.Encoder, v interface{}, st xml.StartElement) uses aAuthnInstant=aux.AuthnInstant RelaxedTime, aSessionNotOnOrAfter=aux.SessionNotOnOrAfter *RelaxedTime alias_fields_from_struct: time.Time(aAuthnInstant) == a.AuthnInstant && (*time.Time)(aSessionNotOnOrAfter) == a.SessionNotOnOrAfter
 //@ contract (*AuthnStatement).UnmarshalXML
 //@ -- on success every such field holds what was decoded into its alias field (whichever statements do the copying,
 //@ -- and on every successful return: a return that skips one of the copies fails here)
 //@ assert@return[C15,C02] #each (rerr error) uses aAuthnInstant=aux.AuthnInstant RelaxedTime, aSessionNotOnOrAfter=aux.SessionNotOnOrAfter *RelaxedTime fields_from_their_aliases: rerr == nil ==> a.AuthnInstant == time.Time(aAuthnInstant) && a.SessionNotOnOrAfter == (*time.Time)(aSessionNotOnOrAfter)
 //@ contract (*LogoutResponse).MarshalXML
-//@ assert@call[C15,C02] Encode #1 (enc *xml.Encoder, v interface{}) uses aIssueInstant=aux.IssueInstant RelaxedTime alias_fields_from_struct: time.Time(aIssueInstant) == r.IssueInstant
+//@ assert@call[C15,C02] Encode #each (enc *xml.Encoder, v interface{}) uses aIssueInstant=aux.IssueInstant RelaxedTime alias_fields_from_struct: time.Time(aIssueInstant) == r.IssueInstant
 //@ contract (*LogoutResponse).UnmarshalXML
 //@ -- on success every such field holds what was decoded into its alias field (whichever statements do the copying,
 //@ -- and on every successful return: a return that skips one of the copies fails here)
 //@ assert@return[C15,C02] #each (rerr error) uses aIssueInstant=aux.IssueInstant RelaxedTime fields_from_their_aliases: rerr == nil ==> r.IssueInstant == time.Time(aIssueInstant)
 //@ contract (EntityDescriptor).MarshalXML
-//@ assert@call[C15,C02] Encode #1 (enc *xml.Encoder, v interface{}) uses aValidUntil=aux.ValidUntil RelaxedTime, aCacheDuration=aux.CacheDuration Duration alias_fields_from_struct: time.Time(aValidUntil) == m.ValidUntil && time.Duration(aCacheDuration) == m.CacheDuration
+//@ assert@call[C15,C02] Encode #each (enc *xml.Encoder, v interface{}) uses aValidUntil=aux.ValidUntil RelaxedTime, aCacheDuration=aux.CacheDuration Duration alias_fields_from_struct: time.Time(aValidUntil) == m.ValidUntil && time.Duration(aCacheDuration) == m.CacheDuration
 //@ contract (*EntityDescriptor).UnmarshalXML
 //@ -- on success every such field holds what was decoded into its alias field (whichever statements do the copying,
 //@ -- and on every successful return: a return that skips one of the copies fails here)
